@@ -99,19 +99,31 @@ def check_frame(run, st, comps, r, line):
             run.oblige("frame[%s]/%s" % (fr.label, comp), st, goal, line, kind="frame")
 
 
+WF_DEPTH = 2
+
+
+def wf_val(v, alloc, depth=None):
+    """every reference held by v - directly, or inside a constructor term up to WF_DEPTH levels - is allocated"""
+    depth = WF_DEPTH if depth is None else depth
+    f = z3.Implies(is_VRef(v), ref(v) < alloc)
+    if depth == 0:
+        return f
+    return z3.And(f, z3.Implies(is_VCon(v), z3.And([wf_val(c(v), alloc, depth - 1) for c in (c0, c1, c2)])))
+
+
 def wf_refs(arr, comp, alloc):
     """heap well-formedness: every reference stored in `arr` was allocated before `alloc`"""
     r, i = bvar("r"), bvar("i")
     if comp == "lel":
         v = z3.Select(z3.Select(arr, r), i)
-        return z3.ForAll([r, i], z3.Implies(is_VRef(v), ref(v) < alloc), patterns=[v])
+        return z3.ForAll([r, i], wf_val(v, alloc), patterns=[v])
     if comp == "dval":
         k = bvarV("k")
         v = z3.Select(z3.Select(arr, r), k)
-        return z3.ForAll([r, k], z3.Implies(is_VRef(v), ref(v) < alloc), patterns=[v])
+        return z3.ForAll([r, k], wf_val(v, alloc), patterns=[v])
     if comp.startswith("f_"):
         v = z3.Select(arr, r)
-        return z3.ForAll([r], z3.Implies(is_VRef(v), ref(v) < alloc), patterns=[v])
+        return z3.ForAll([r], wf_val(v, alloc), patterns=[v])
     return None
 
 
@@ -120,13 +132,13 @@ def wf_cell(val, comp, alloc):
     if comp == "lel":
         i = bvar("i")
         v = z3.Select(val, i)
-        return z3.ForAll([i], z3.Implies(is_VRef(v), ref(v) < alloc), patterns=[v])
+        return z3.ForAll([i], wf_val(v, alloc), patterns=[v])
     if comp == "dval":
         k = bvarV("k")
         v = z3.Select(val, k)
-        return z3.ForAll([k], z3.Implies(is_VRef(v), ref(v) < alloc), patterns=[v])
+        return z3.ForAll([k], wf_val(v, alloc), patterns=[v])
     if comp.startswith("f_"):
-        return z3.Implies(is_VRef(val), ref(val) < alloc)
+        return wf_val(val, alloc)
     return None
 
 
